@@ -8,8 +8,9 @@
 EXTENDS Num, Bytes, Codec
 
 (* masked big-endian candidate of one draw                                   *)
-Candidate(draw, maxval) ==
-  NFromBytes([draw EXCEPT ![1] = draw[1] % (TopMask(maxval) + 1)])
+(* mp1 = top byte mask + 1 (a power of two)                                   *)
+CandidateM(draw, mp1) == NFromBytes([draw EXCEPT ![1] = draw[1] % mp1])
+Candidate(draw, maxval) == CandidateM(draw, TopMask(maxval) + 1)
 
 SamplerOK(v)   == [ok |-> TRUE, v |-> v, why |-> "ok"]
 SamplerBad(w)  == [ok |-> FALSE, v |-> NLit(0), why |-> w]
@@ -21,14 +22,16 @@ Randrange(start, stop, log) ==
   LET maxval == NSub(stop, start)
       nb     == SizeBytes(maxval)
       n      == Len(log)
+      mp1    == TopMask(maxval) + 1
+      cand(i) == CandidateM(log[i].got, mp1)
   IN IF n = 0 THEN SamplerBad("no entropy drawn")
      ELSE IF \E i \in 1..n : log[i].req # nb \/ Len(log[i].got) # nb
           THEN SamplerBad("request size is not size_bytes(width)")
-     ELSE IF \E i \in 1..(n - 1) : NLt(Candidate(log[i].got, maxval), maxval)
+     ELSE IF \E i \in 1..(n - 1) : NLt(cand(i), maxval)
           THEN SamplerBad("drew again although an earlier draw was in range")
-     ELSE IF ~NLt(Candidate(log[n].got, maxval), maxval)
+     ELSE IF ~NLt(cand(n), maxval)
           THEN SamplerBad("returned although the last draw was out of range")
-     ELSE SamplerOK(NAdd(start, Candidate(log[n].got, maxval)))
+     ELSE SamplerOK(NAdd(start, cand(n)))
 
 (* ed25519_basic.random_scalar: one request of 64 bytes, big-endian, mod L   *)
 EdRandomScalar(L, log) ==
